@@ -39,12 +39,12 @@ M_CONFIGS_QUICK = [
 M_CONFIGS_THOROUGH = M_CONFIGS_QUICK + [
     ('rooms', {'shape': [7, 7], 'layout': [2, 2]}, BASIC, TERM_EXIT),
     ('rooms', {'shape': [6, 8], 'layout': [2, 2]}, BASIC, TERM_EXIT),
-    ('rooms', {'shape': [7, 10], 'layout': [2, 3]}, BASIC, TERM_EXIT),
+    ('rooms', {'shape': [5, 9], 'layout': [1, 3]}, BASIC, TERM_EXIT),
     ('keydoor', {'shape': [6, 6]}, steps.COMPOSITIONS['keydoor'], TERM_EXIT),
     ('keydoor', {'shape': [4, 7]}, steps.COMPOSITIONS['keydoor'], TERM_EXIT),
     ('crossing', {'shape': [7, 7], 'num_rivers': 1, 'object_type': 'Wall'}, BASIC, TERM_EXIT),
     ('crossing', {'shape': [7, 9], 'num_rivers': 3, 'object_type': 'Wall'}, BASIC, TERM_EXIT),
-    ('crossing', {'shape': [9, 9], 'num_rivers': 5, 'object_type': 'Wall'}, BASIC, TERM_EXIT),
+    ('crossing', {'shape': [7, 9], 'num_rivers': 4, 'object_type': 'Wall'}, BASIC, TERM_EXIT),
     ('teleport', {'shape': [6, 6]}, steps.COMPOSITIONS['teleport'], TERM_EXIT),
     ('teleport', {'shape': [4, 4]}, steps.COMPOSITIONS['teleport'], TERM_EXIT),
     ('dynamic_obstacles', {'shape': [5, 5], 'num_obstacles': 2, 'random_agent': False}, steps.COMPOSITIONS['obstacles'], TERM_OBST),
